@@ -3,11 +3,15 @@ inside the soupsieve package, thread B then runs its whole operation, then A res
 import sys, threading, os
 
 
+BLOCK_WAIT = 8
+LAST = {}
+
+
 def run_pair(opA, opB, k, pkg_dir):
     """-> (resA, resB, reached): reached is False when opA has fewer than k soupsieve line events."""
     gate_a = threading.Event()      # set by A when it reaches its k-th line
     gate_b = threading.Event()      # set by B when it is done
-    state = {'n': 0, 'reached': False}
+    state = {'n': 0, 'reached': False, 'blocked': False}
     res = {}
 
     def tracer(frame, event, arg):
@@ -21,7 +25,8 @@ def run_pair(opA, opB, k, pkg_dir):
             if state['n'] == k and not state['reached']:
                 state['reached'] = True
                 gate_a.set()
-                gate_b.wait(60)
+                if not gate_b.wait(BLOCK_WAIT):
+                    state['blocked'] = True       # B cannot finish while A is suspended here (it waits for A): let A go on
         return local
 
     def a():
@@ -47,4 +52,5 @@ def run_pair(opA, opB, k, pkg_dir):
     tb.start()
     ta.join(120)
     tb.join(120)
+    LAST['blocked'] = state['blocked']
     return res.get('a'), res.get('b'), state['reached'], state['n']
